@@ -19,17 +19,28 @@ func verifE18(n int64) *big.Int {
 func VerifHarness_C13_SellWithOrders() {
 	s := verifNewSwapV2()
 	r0, r1 := verifE18(10000), verifE18(10000)
+	skew := verifConfig("skew") == 1
+	if skew {
+		// reserves of very different magnitude (1000 coin0 per coin1): the two
+		// commissions of a filled order then differ by three orders of magnitude
+		r0, r1 = verifE18(1000000), verifE18(1000)
+	}
 	p := verifSeedPool(s, 1, 2, r0, r1)
 	owner1, owner2 := types.Address{1}, types.Address{2}
 	n := verifConfig("orders")
 	escrow := big.NewInt(0)
-	if n >= 1 {
-		p.AddOrder(verifE18(1000), verifE18(900), owner1, 1) // wants 1000 coin0 for 900 coin1
-		escrow.Add(escrow, verifE18(900))
-	}
-	if n >= 2 {
-		p.AddOrder(verifE18(1000), verifE18(700), owner2, 1)
-		escrow.Add(escrow, verifE18(700))
+	if skew {
+		p.AddOrder(verifE18(10100), verifE18(10), owner1, 1) // wants 10100 coin0 for 10 coin1 (price 1010)
+		escrow.Add(escrow, verifE18(10))
+	} else {
+		if n >= 1 {
+			p.AddOrder(verifE18(1000), verifE18(900), owner1, 1) // wants 1000 coin0 for 900 coin1
+			escrow.Add(escrow, verifE18(900))
+		}
+		if n >= 2 {
+			p.AddOrder(verifE18(1000), verifE18(700), owner2, 1)
+			escrow.Add(escrow, verifE18(700))
+		}
 	}
 	a := verifBigPos("a")
 	verifAssume(a.Cmp(verifE18(100000)) <= 0)
